@@ -27,7 +27,12 @@ pub enum Sched {
 /// with a short custom message, sometimes with a LONG localised message (multi-byte characters at varying
 /// alignment around bytes 32…300) — code that stores, clips or formats the message must cope with all.
 pub fn fault(k: io::ErrorKind, salt: usize) -> io::Error {
-    match salt % 6 {
+    match salt % 7 {
+        6 => {
+            // a layered transport built on this very crate: the payload is one of the codec's OWN errors
+            let inner = if salt % 2 == 0 { mqtt_proto::Error::ZeroPid } else { mqtt_proto::Error::IoError(if k == io::ErrorKind::UnexpectedEof { io::ErrorKind::BrokenPipe } else { io::ErrorKind::UnexpectedEof }, "inner".into()) };
+            io::Error::new(k, inner)
+        }
         5 => {
             // what a TLS / websocket layer produces: its own kind, the OS error only quoted in the message
             let os = io::Error::from_raw_os_error([104, 32, 110, 11, 4, 13][salt % 6]);
